@@ -19,7 +19,7 @@ META = dict(
                 "self-loops, with exactly no_edges more edges, raises ValueError iff no_edges > p(p-1)/2 - #edges and never fails its "
                 "final assertion (i.e. the greedy pass reaches the requested count for EVERY shuffle, up to the complete DAG); the "
                 "caller's matrix is frozen (any write is reported); a second call with the same seed returns the same graph, also after calls on OTHER graphs of the same size (no state carried between calls).",
-    bounds=dict(quick="p <= 3: all DAG patterns, no_edges in 0..(feasible maximum + 1), all choice / shuffle outcomes; p = 4: no_edges <= 1 or infeasible; dtypes float (symbolic weights), int 0/1, bool",
+    bounds=dict(quick="p <= 3: all DAG patterns, no_edges in 0..(feasible maximum + 1), all choice / shuffle outcomes; p = 4: no_edges <= 1 or infeasible; dtypes float (symbolic real weights), int (0/1 and symbolic integer weights), bool",
                 thorough="p = 4: remove_edges all counts; add_edges no_edges <= 2, the infeasible counts, and completing the DAG (all counts) for DAGs with at least 4 edges"),
     outside=["p > 4", "add_edges at p = 4 with 3..6 added edges on DAGs with fewer than 4 edges (too many shuffle prefixes)", "which edges are chosen (uniformity)"],
     stubs=["numpy -> symnp", "numpy.random.default_rng -> contract stub (choice without replacement, shuffle)"],
@@ -29,6 +29,13 @@ META = dict(
 
 def _input(ctx):
     dt = ctx.params['dtype']
+    if dt == 'intw':
+        # integer-typed WEIGHT matrix (symbolic non-zero integer weights of any sign and size)
+        from harness import scm_inputs as SI
+        rows, pat, _m, _v = SI.sym_model(ctx, 'int')
+        A = np.array(rows, dtype=int)
+        A.buf.frozen = True
+        return rows, pat, A
     rows, pat = I.weighted_dag(ctx)
     p = len(pat)
     if dt == 'float':
@@ -163,6 +170,8 @@ def _realA(inp):
     dt = inp['dtype']
     if dt == 'float':
         return numpy.array(unj_float(inp['A']), dtype=float)
+    if dt == 'intw':
+        return numpy.array([[int(unj(x)) for x in r] for r in inp['A']], dtype=int)
     return numpy.array(inp['A'], dtype=int if dt == 'int' else bool)
 
 
@@ -284,7 +293,7 @@ def obligations(tier):
     ob = []
     for which in ('remove', 'add'):
         for p in (1, 2, 3):
-            cubes = [dict(c, dtype=dt) for dt in ('float', 'int', 'bool') for c in I.dag_pair_cubes(p, 2 if p == 3 else 0)]
+            cubes = [dict(c, dtype=dt) for dt in ('float', 'int', 'bool', 'intw') for c in I.dag_pair_cubes(p, 2 if p == 3 else 0)]
             ob.append(Obligation('%s_p%d' % (which, p), _mk(which), cubes,
                                  "%s_edges on every DAG pattern on %d nodes (symbolic weights / 0-1 int / bool), symbolic no_edges and seed, every generator outcome" % (which, p),
                                  expect=('returned', 'raised ValueError'), weight=p * (20 if which == 'add' else 5)))
